@@ -119,6 +119,7 @@ func (w *World) waitConn(idx int, late bool) *connState {
 	if late && !cs.closed {
 		return nil
 	}
+	vsched.Acquire(&cs.pub)
 	return cs
 }
 
@@ -128,6 +129,7 @@ func (w *World) userBody(ui int) {
 	seq := 0
 	for oi := range up.Ops {
 		op := &up.Ops[oi]
+		vsched.Acquire(&w.pubEng)
 		if w.runDone {
 			// after Run has returned only the control API is exercised: it must
 			// answer with the in-shutdown error / -1 and have no effect
@@ -153,7 +155,11 @@ func (w *World) userBody(ui int) {
 				aid := w.newAsync("asyncwrite", cs.idx, ui)
 				seq++
 				w.asyncs[aid].seq = seq
-				err := cs.c.AsyncWrite(data, func(c gnet.Conn, err error) error { w.asyncWriteDone(aid, cs, id, 1, c, err); return nil })
+				err := cs.c.AsyncWrite(data, func(c gnet.Conn, err error) error {
+					defer vsched.Restore(vsched.EnterHarness())
+					w.asyncWriteDone(aid, cs, id, 1, c, err)
+					return nil
+				})
 				w.asyncIssued(aid, err)
 				vsched.Yield("user:flood")
 			}
@@ -188,6 +194,7 @@ func (w *World) userBody(ui int) {
 				w.markLocalAll()
 			}
 			ctx := context.Background()
+			vsched.Acquire(&w.pubEng)
 			err := w.eng.Stop(ctx)
 			vsched.Yield("post-block")
 			w.logf("user%d Stop -> %v", ui, err)
@@ -209,6 +216,7 @@ func (w *World) userBody(ui int) {
 			aid := w.newAsync("asyncwrite", cs.idx, ui)
 			w.asyncs[aid].seq = seq
 			err := c.AsyncWrite(data, func(c gnet.Conn, err error) error {
+				defer vsched.Restore(vsched.EnterHarness())
 				w.asyncWriteDone(aid, cs, id, op.N, c, err)
 				scribble(data)
 				return nil
@@ -230,11 +238,15 @@ func (w *World) userBody(ui int) {
 			aid := w.newAsync("asyncwritev", cs.idx, ui)
 			w.asyncs[aid].seq = seq
 			err := c.AsyncWritev(bs, func(c gnet.Conn, err error) error {
+				defer vsched.Restore(vsched.EnterHarness())
 				w.asyncWriteDone(aid, cs, id, total, c, err)
 				scribble(data)
 				return nil
 			})
 			w.asyncIssued(aid, err)
+		case "safectx":
+			// SetSafeContext / SafeContext / Fd from a goroutine of the application
+			w.safeCtxOps(cs, c, op.N, 100+ui)
 		case "wake":
 			aid := w.newAsync("wake", cs.idx, ui)
 			if !cs.closed {
@@ -247,7 +259,11 @@ func (w *World) userBody(ui int) {
 				w.asyncs[aid].cbCount = -1
 				w.probes["wake-without-callback"]++
 			} else {
-				err = c.Wake(func(c gnet.Conn, err error) error { w.asyncDone(aid, c, err); return nil })
+				err = c.Wake(func(c gnet.Conn, err error) error {
+					defer vsched.Restore(vsched.EnterHarness())
+					w.asyncDone(aid, c, err)
+					return nil
+				})
 			}
 			w.asyncIssued(aid, err)
 			if err != nil && !cs.closed {
@@ -262,11 +278,16 @@ func (w *World) userBody(ui int) {
 		case "closecb":
 			cs.localReq = true
 			aid := w.newAsync("closecb", cs.idx, ui)
-			err := c.CloseWithCallback(func(c gnet.Conn, err error) error { w.asyncDone(aid, c, err); return nil })
+			err := c.CloseWithCallback(func(c gnet.Conn, err error) error {
+				defer vsched.Restore(vsched.EnterHarness())
+				w.asyncDone(aid, c, err)
+				return nil
+			})
 			w.asyncIssued(aid, err)
 		case "execute":
 			aid := w.newAsync("execute", cs.idx, ui)
 			err := c.EventLoop().Execute(context.Background(), gnet.RunnableFunc(func(ctx context.Context) error {
+				defer vsched.Restore(vsched.EnterHarness())
 				w.asyncDone(aid, nil, nil)
 				return nil
 			}))
@@ -371,3 +392,59 @@ func sockaddrMatches(a net.Addr, sa unix.Sockaddr) bool {
 
 var _ = errors.New
 var _ = fmt.Sprint
+
+// Values for Conn.SetSafeContext: two dynamic types, so that a value put
+// together from the type of one store and the data of another is not a value
+// anybody stored.
+type safeA struct{ who, n int }
+type safeB struct {
+	n   int
+	who string
+}
+
+// safeCtxOps calls the context accessors that are documented as safe for
+// concurrent use (from a callback or from any goroutine) and checks that what
+// SafeContext returns is a value that was stored for this connection.
+func (w *World) safeCtxOps(cs *connState, c gnet.Conn, n, who int) {
+	w.probes["safe-context-calls"]++
+	check := func(v any) {
+		if v == nil {
+			return
+		}
+		for _, s := range cs.safeVals {
+			if s == v {
+				return
+			}
+		}
+		if len(cs.safeVals) == 0 {
+			return // what Enroll / Register attached on the connection's behalf
+		}
+		switch v.(type) {
+		case *safeA, *safeB:
+			w.violate("C05", "safe-context-value", "conn %d: SafeContext returned %T %v, which nobody stored for this connection", cs.idx, v, v)
+		}
+	}
+	check(c.SafeContext())
+	if n%2 == 0 {
+		var v any = &safeA{who, len(cs.safeVals)}
+		if n%4 == 2 {
+			v = &safeB{len(cs.safeVals), fmt.Sprint(who)}
+		}
+		cs.safeVals = append(cs.safeVals, v)
+		c.SetSafeContext(v)
+	}
+	_ = c.Fd()
+	check(c.SafeContext())
+}
+
+// safeCtxConn: some application goroutine uses the safe-context accessors of this connection.
+func (w *World) safeCtxConn(idx int) bool {
+	for _, u := range w.p.Users {
+		for _, op := range u.Ops {
+			if op.K == "safectx" && op.Conn == idx {
+				return true
+			}
+		}
+	}
+	return false
+}
